@@ -8,12 +8,12 @@ import NV.C09.Inv
 namespace NV.C09
 
 /-- the fields (other than the two flags) that the invariant and the relations look at -/
-def proj (w : W) := (w.users, w.inter, w.nextUser, w.nextConnId, w.crashed, w.mode, w.ctxDepth)
+def proj (w : W) := (w.users, w.inter, w.nextUser, w.nextConnId, w.crashed, w.mode, w.ctxDepth, w.callouts, w.dead)
 
 theorem Same.of_proj {w w' : W} (h : proj w' = proj w) (h1 : w'.inError = w.inError) (h2 : w'.inMeh = w.inMeh) :
     Same w w' := by
   simp only [proj, Prod.mk.injEq] at h
-  obtain ⟨a, b, c, d, e, f, g⟩ := h
+  obtain ⟨a, b, c, d, e, f, g, _, _⟩ := h
   exact ⟨a, b, c, d, e, h1, h2, f, g⟩
 
 theorem proj_setHeartBeat (w : W) (o : Oid) (n : Nat) : proj (setHeartBeat w o n) = proj w := by
